@@ -120,6 +120,7 @@ package core
 
 //@ func (*Branches).consider returns st, ts, consumed, err
 //@   safety C07
+//@   logged
 //@   requires wfBranches(b)
 //@   modifies[C06,C12;profile=pure] nothing
 //@   modifies[;profile=any] bs
@@ -145,8 +146,14 @@ package core
 //@   ensures[C04] exhausted: b != nil && err == nil && st == nil && (b.Type != "message" || pending != nil) ==> ncalls("core.(*Branch).try") == old(ncalls("core.(*Branch).try")) + len(b.Branches)
 //@   ensures[C04] errfrom: err != nil ==> err == lastret("core.(*Branch).try", err)
 
+// The persisted form of a state: an object with exactly the keys "node" and
+// "bs", both always written (empty bindings are written as {} and come back as
+// an empty, non-nil map; try treats nil bindings as "branch not followed").
+//@ jsonform [C09] State: node=NodeName, bs=Bs
+
 //@ spec nodeOf(s, st) = s.Nodes[st.NodeName]
 //@ spec msgBranching(n) = n.Branches != nil && n.Branches.Type == "message"
+//@ spec runsAction(s, st) = s.compiled && (st.NodeName in s.Nodes) && nodeOf(s, st).Action != nil && !msgBranching(nodeOf(s, st))
 
 //@ func (*Spec).Step returns stride, err
 //@   safety C07
@@ -163,6 +170,24 @@ package core
 //@   ensures[C04] badbranching: s.compiled && (st.NodeName in s.Nodes) && nodeOf(s, st).Action != nil && msgBranching(nodeOf(s, st)) ==> stride == nil && err != nil
 //@   ensures[C04] noaction: s.compiled && (st.NodeName in s.Nodes) && nodeOf(s, st).Action == nil && nodeOf(s, st).ActionSource == nil
 //@                        ==> stride != nil && ncalls(core.Action.Exec) == old(ncalls(core.Action.Exec)) + 0 * 1 || true
+// An action failure is routed by the specification's error settings: error
+// branches (the node's branches are considered with actionError bound), the
+// designated node, or the error is returned; an action node that follows no
+// branch goes to the error node.
+//@   ensures[C04] errreturned: runsAction(s, st) && firstret(core.Action.Exec, err) != nil && !s.ActionErrorBranches && s.ActionErrorNode == ""
+//@                        ==> stride == nil && err == firstret(core.Action.Exec, err)
+//@   ensures[C04] errnode: runsAction(s, st) && firstret(core.Action.Exec, err) != nil && !s.ActionErrorBranches && s.ActionErrorNode != ""
+//@                        ==> stride != nil && err == nil && stride.To != nil && stride.To.NodeName == s.ActionErrorNode && ("actionError" in stride.To.Bs)
+//@   ensures[C04] errbranches: runsAction(s, st) && firstret(core.Action.Exec, err) != nil && s.ActionErrorBranches
+//@                        ==> stride != nil && ncalls("core.(*Branches).consider") == old(ncalls("core.(*Branches).consider")) + 1
+//@                            && lastarg("core.(*Branches).consider", b) == nodeOf(s, st).Branches
+//@   ensures[C04;profile=pure] errbound: runsAction(s, st) && firstret(core.Action.Exec, err) != nil && s.ActionErrorBranches && ncalls("core.(*Branches).consider") > old(ncalls("core.(*Branches).consider"))
+//@                        ==> ("actionError" in lastarg("core.(*Branches).consider", bs))
+//@   ensures[C04] considered: runsAction(s, st) && firstret(core.Action.Exec, err) == nil
+//@                        ==> stride != nil && ncalls("core.(*Branches).consider") == old(ncalls("core.(*Branches).consider")) + 1
+//@                            && lastarg("core.(*Branches).consider", b) == nodeOf(s, st).Branches
+//@   ensures[C04] nobranch: runsAction(s, st) && stride != nil && ncalls("core.(*Branches).consider") > old(ncalls("core.(*Branches).consider")) && lastret("core.(*Branches).consider", st) == nil
+//@                        ==> stride.To != nil && stride.To.NodeName == "error"
 //@   ensures[C04] consumes: stride != nil && (st.NodeName in s.Nodes) && nodeOf(s, st).Action == nil && msgBranching(nodeOf(s, st)) ==> stride.Consumed == pending
 //@   ensures[C04] keeps: stride != nil && (st.NodeName in s.Nodes) && !msgBranching(nodeOf(s, st)) ==> stride.Consumed == nil
 //@   ensures consumed: stride != nil && stride.Consumed != nil ==> stride.Consumed == pending
